@@ -6,7 +6,7 @@ sys.path.insert(0, V)
 from multiprocessing import Pool
 from vlib.model import read_sources
 from selftest import runner
-src = read_sources("/repo")
+src = read_sources(os.environ.get("REPO_ROOT", "/repo"))
 props = ["C%02d" % i for i in range(1, 21)]
 root = sys.argv[1]
 pat = sys.argv[2] if len(sys.argv) > 2 else "C*/m*"
